@@ -44,7 +44,7 @@ for nm, hdr, sig in (('utils__char_to_idx', r'constexpr\s+size_t\s+char_to_idx\s
                      ('utils__is_printable', r'constexpr\s+bool\s+is_printable\s*\(\s*char c\s*\)', 'bool utils__is_printable(char c)'),
                      ('utils__is_hex_digit', r'constexpr\s+bool\s+is_hex_digit\s*\(\s*char c\s*\)', 'bool utils__is_hex_digit(char c)'),
                      ('utils__is_dec_digit', r'constexpr\s+bool\s+is_dec_digit\s*\(\s*char c\s*\)', 'bool utils__is_dec_digit(char c)')):
-    UTILS.append(Fn(name=nm, header=hdr, csig=sig, between_ok=r'\s*'))       # inlined leaf helpers (under contract in unit utils)
+    UTILS.append(Fn(name=nm, header=hdr, csig=sig, between_ok=r'\s*', rules=[S(r'(?<![\w:])(char_to_idx|is_printable|is_hex_digit|is_dec_digit)\(', r'utils__\1(', min=0, name='R4:sibling helper (namespace utils)')]))       # inlined leaf helpers (under contract in unit utils)
 
 PRELUDE = r'''
 int vx_thrown;
